@@ -42,7 +42,7 @@ def template(name, idx):
         return bt.Strategy("t", [log, A.RunDaily(), A.SelectAll(), A.SelectRandomly(2), A.WeighRandomly(), A.Rebalance()], ["d", "a", "c", "b"])
     if name == "nested":
         s1 = bt.Strategy("s1", [A.RunWeekly(), A.SelectAll(), A.WeighEqually(), A.Rebalance()], ["a", "b"])
-        s2 = bt.Strategy("s2", [A.RunMonthly(), A.SelectMomentum(1, lookback=D(days=4)), A.WeighEqually(), A.Rebalance()], ["b", "d"])
+        s2 = bt.Strategy("s2", [A.RunMonthly(), A.SelectAll(), A.SelectMomentum(1, lookback=D(days=4)), A.WeighEqually(), A.Rebalance()], ["b", "d"])
         return bt.Strategy("t", [log, A.RunDaily(), A.WeighSpecified(s1=0.5, s2=0.25), A.Rebalance()], [s1, s2])
     if name == "perm":
         return bt.Strategy("t", [log, A.ClosePositionsAfterDates("closes"), A.RunDaily(), A.SelectThese(["a", "b", "d"]), A.SelectActive(), A.WeighEqually(), A.Rebalance()], [bt.Security("a"), bt.Security("b"), bt.Security("d")])
